@@ -238,7 +238,8 @@ def probe_inputs(ns, tid0, seed, per_model=14):
     return events
 
 
-def plain_history(ns, tid, seed, n_updates=3):
+def plain_history(ns, tid, seed, n_updates=3, flavours=("input", "struct", "mixed", "invalid", "not-allowed", "recompute-fails",
+                                                       "link+recompute-fails")):
     """undated updates (ordinary edits made through ModelingUpdate), accepted and refused ones, on one seeded system: after each
     the identity-level state is projected (EFSim's Update action: all or nothing, closed graph)"""
     rng = random.Random(seed)
@@ -251,7 +252,7 @@ def plain_history(ns, tid, seed, n_updates=3):
     events = [dict(tid=tid, seq=0, ev="Baseline", seed=seed, flavour="plain", **proj.state(live))]
     seq = 1
     for _ in range(n_updates):
-        flavour = rng.choice(["input", "struct", "mixed", "invalid", "not-allowed", "recompute-fails", "link+recompute-fails"])
+        flavour = rng.choice(list(flavours))
         cl = change_list(ns, rng, model, live, flavour)
         if cl is None:
             continue
